@@ -130,12 +130,23 @@ def check_c07(pid, tier, seed, res, work):
         plan.append((5, 'slow'))     # seconds of parsing per file: thorough tier only
     # many SMALL files: far more than any fixed queue length or batch size somebody might introduce
     plan.append((1100 if tier == 'quick' else 2500, 'many'))
+    # a few files of DEEPLY nested blocks (every statement text is kept once per enclosing block: tens of megabytes of
+    # text in all): what a process-wide budget or cache would meet in an order that depends on the workers
+    plan.append((6, 'nested'))
     for pi, (n, dangling) in enumerate(plan):
         slow = dangling == 'slow'
         many = dangling == 'many'
-        if slow or many:
+        nested = dangling == 'nested'
+        if slow or many or nested:
             dangling = []
-        if many:
+        if nested:
+            depth = 340
+            files = []
+            for k in range(n):
+                body = ''.join('%sif (v%d > %d) {\n%s  call%d(v%d, "a fairly long argument text number %d of file %d to pass the length threshold");\n' % ('  ' * (j % 20), k, j, '  ' * (j % 20), j, k, j, k) for j in range(depth)) + '}' * depth
+                files.append(('n%d/Nest%d.java' % (k % 3, k), ('class Nest%d { void m(int v%d) {\n%s\n} }\n' % (k, k, body)).encode()))
+            stats['deeply_nested_files'] = n
+        elif many:
             files = [('m%d/T%04d.java' % (k % 9, k), ('class T%04d { int f%d = %d + 1; void m() { g(%d); } }\n' % (k, k, k, k)).encode()) for k in range(n)]
             stats['many_small_files'] = n
         else:
@@ -182,7 +193,7 @@ def check_c07(pid, tier, seed, res, work):
                                                detail='%s rows vs %s rows' % (sum(rows[qd][1].values()) if rows[qd][1] is not None else rows[qd][0], sum(base_rows[qd][1].values()) if base_rows[qd][1] is not None else base_rows[qd][0]),
                                                project='%d files T<nnnn>.java: class T<nnnn> { int f<n> = <n> + 1; void m() { g(<n>); } }' % n, how='GOMAXPROCS=%s pathfinder query --project D --output json --query <query>' % procs))
                     break
-        r = orders_run(proj, work, 1 if slow else (2 if many else (6 if tier == 'quick' else 30)), seed + pi)
+        r = orders_run(proj, work, 1 if slow else (2 if (many or nested) else (6 if tier == 'quick' else 30)), seed + pi)
         if 'error' in r:
             res.tie_broken.append('orders campaign could not run: ' + r['error'])
             return stats, samples
